@@ -57,6 +57,17 @@ def run(R):
                 if e not in safe:
                     early_bad.append(("CALL %s -> %s" % (lst, e), "the library function %s calls %s, which is not on the list of MT-safe external functions "
                                       "(state inside libc shared between threads); the function is reachable from the re-entrant entry points per theorem C08_imports" % (lst, e), ""))
+    if not ok and any("C08_footprint" in t or "C08_closure" in t for t in badthm):
+        # name the writer: functions of the regenerated table that may write a static object (the comment of each row lists the objects); the
+        # theorem says one of them is reachable from a re-entrant entry point
+        import re, os
+        ld = R.lean_prepare()
+        ref = open(os.path.join(os.path.dirname(os.path.abspath(__file__)), "..", "lean", "Xc", "Gen", "Statics.lean")).read()
+        known = set(re.findall(r"/- \d+ (\w+) writes ([^ ]+) -/", ref))
+        for fn, objs in re.findall(r"/- \d+ (\w+) writes ([^ ]+) -/", open(os.path.join(ld, "Xc/Gen/Statics.lean")).read()):
+            if (fn, objs) not in known:
+                early_bad.append(("WRITE %s -> %s" % (fn, objs), "the library function %s now writes the static object(s) %s (not so in the reference analysis of the unchanged tree) "
+                                  "and theorem C08_footprint - no function reachable from the re-entrant entry points writes static storage - no longer checks" % (fn, objs), ""))
     # 1b. DIFFERENT requests per thread, one method at a time, repeated: state shared outside the caller's objects - including state inside libc,
     #     which ThreadSanitizer does not instrument (a helper that returns a pointer to a static libc buffer: seeded/C08c) - makes a thread's
     #     transcript differ from the one it produces alone.  Run in the plain (uninstrumented, fast) build so that the threads really overlap.
